@@ -8,6 +8,7 @@
 -/
 import MediaSan.Mp4.Sanitize
 import MediaSan.Lemmas.Prog
+import MediaSan.Lemmas.ScanSafe
 namespace MediaSan.Props.C09
 open MediaSan MediaSan.Mp4
 
@@ -30,16 +31,6 @@ theorem C09_displace_no_panic (width : Nat) (disp : Int) (fuel : Nat) (bs : Byte
         | err e => simp
         | panic s => exact absurd h (ih _ s)
 
-theorem sumU32_ok (acc : Nat) (cs : List Nat) (h : acc + cs.sum ≤ u32Max) : sumU32 acc cs = .ok (acc + cs.sum) := by
-  induction cs generalizing acc with
-  | nil => simp [sumU32]
-  | cons c cs ih =>
-    simp only [List.sum_cons] at h
-    have h1 : acc + c ≤ u32Max := by omega
-    simp only [sumU32, h1, if_true, List.sum_cons]
-    rw [ih (acc + c) (by omega)]
-    congr 1; omega
-
 /-- the u32 sum of the per-track chunk counts (lib.rs:361) cannot overflow when the counts fit the moov payload:
     each table of `c` entries occupies at least 4·c bytes of a payload of at most 2^30 bytes -/
 theorem C09_chunk_count_no_overflow (c : Nat) (cs : List Nat) (payload : Nat) (hp : payload ≤ 1073741824)
@@ -56,6 +47,42 @@ theorem C09_sized_box_add (h : BoxHeader) (n d : Nat) (hs : h.sz.toNat? = some n
     · simp only [Except.ok.injEq, Option.some.injEq] at hd; omega
     · cases hd
   simp only [addU64, this, hn, if_true]
+
+/-- MP4 totality on the ideal cursor (seek-based or strict), for EVERY stream shorter than 2^64 bytes and every
+    configuration with max_metadata_size ≤ 4·(2^32−1) (≈ 16 GiB; the property asks for ≤ 1 GiB) and a 32-bit cumulative
+    size: the model of `sanitize` returns a value, a parse error or an I/O error — it never panics (no u64/u32
+    arithmetic overflow, no unreachable!/unwrap site) and never exhausts its loop fuel (the scan loop terminates within
+    len/8 + 2 iterations because every iteration consumes at least a box header).  Proved with a program logic over
+    I/O programs (`Safe`): loop invariant "the cursor is a u64, the collected media span lies behind it, the kept
+    ftyp/moov payloads are within their limits". -/
+theorem C09_mp4_total (s : Stream) (kind : SkipKind) (cfg : Config) (hlen : s.len < u64Lim)
+    (hcum : ∀ t, cfg.cumulativeMdatBoxSize = some t → t ≤ u32Max) (hmax : cfg.maxMetadataSize ≤ 4 * u32Max) :
+    (∃ r, Mp4.sanitize s kind cfg = .ok r) ∨ (∃ e, Mp4.sanitize s kind cfg = .parseErr e) ∨
+    (∃ k, Mp4.sanitize s kind cfg = .ioErr k) := by
+  have h := sanitizeP_safe s kind hlen cfg hcum hmax
+  unfold Safe at h
+  simp only [Mp4.sanitize, Mp4.sanitizeWith, run_eq_runF]
+  cases hr : (sanitizeP cfg (fuelFor s)).runF (idealOps s kind) 0 with
+  | ok x =>
+    obtain ⟨a, p⟩ := x
+    rw [hr] at h
+    cases a with
+    | none => exact absurd rfl h
+    | some r => left; exact ⟨r, rfl⟩
+  | parseErr e => right; left; exact ⟨e, rfl⟩
+  | ioErr k => right; right; exact ⟨k, rfl⟩
+  | panic site => rw [hr] at h; exact h.elim
+  | outOfFuel => rw [hr] at h; exact h.elim
+
+/-- the eager moov validation never panics for payloads up to 4·(2^32−1) bytes: the chunk counts are paid for by the
+    payload bytes (4·Σcounts ≤ |payload|), so their u32 sum cannot overflow -/
+theorem C09_validate_no_panic (payload : Bytes) (hp : payload.length ≤ 4 * u32Max) (site : String) :
+    validateMoov (.bytes payload) ≠ .panic site :=
+  validateMoov_np payload hp site
+
+/-- the rewrite after the loop never panics for any moov tree and displacement -/
+theorem C09_displaceMoov_no_panic (disp : Int) (d : Data L5) (site : String) : displaceMoov disp d ≠ .panic site :=
+  displaceMoov_np disp d site
 
 -- Non-vacuity
 example : displaceEntries 4 (-1) 1 [0, 0, 0, 0] = .err .invalidInput := by decide
